@@ -19,7 +19,7 @@
     The server as it is leaves the file in the store (storage/fs/local: Close is
     os.File.Close) - the fault enumeration reports that as a violation. *)
 From Perf Require Import Base.Bytes Model.Words Model.Query Model.StoreFmt Model.Upload Model.UploadSpec Model.Ids
-     Model.IdsHist Proofs.Upload Proofs.UploadSpec Proofs.Ids Proofs.IdsHist.
+     Model.IdsHist Proofs.Upload Proofs.UploadSpec Proofs.UploadOps Proofs.Ids Proofs.IdsHist.
 
 Section C20.
 Variables result rec : Type.
@@ -145,6 +145,29 @@ Theorem C20_failed_upload_not_listed : forall o st rq st',
   run o st rq = (st', UErr) -> listing rec st' = listing rec st.
 Proof. exact (failed_upload_not_listed result rec parse_file coalesce rejects alloc). Qed.
 
+(** the operation count the judge uses to decide whether an injected
+    file-store fault is reached ([spec_ops], computed from the request alone)
+    IS the number of file-store operations the model performs, for every fault
+    oracle under which the upload succeeds - so "n < ops_used" in
+    C20_upload_success_means_no_fault may be read "n < spec_ops" *)
+Theorem C20_success_ops_are_spec_ops : forall o st rq st' id fids,
+  run o st rq = (st', UOk id fids) ->
+  ops_used result rec parse_file alloc o st rq
+  = spec_ops id (rq_user rq) (rq_time rq) (rq_items rq) 0.
+Proof. exact (success_ops_used_is_spec_ops result rec parse_file coalesce rejects alloc). Qed.
+
+(** ... hence: a fault at ANY operation index below the declared count makes
+    the upload fail, stated over the request alone *)
+Theorem C20_fs_fault_below_spec_ops_fails : forall o st rq st' id fids n,
+  run o st rq = (st', UOk id fids) ->
+  n < spec_ops id (rq_user rq) (rq_time rq) (rq_items rq) 0 -> o_fs o n = false.
+Proof.
+  intros o st rq st' id fids n H Hn.
+  rewrite <- (success_ops_used_is_spec_ops result rec parse_file coalesce rejects alloc _ _ _ _ _ _ H) in Hn.
+  exact (proj1 (proj2 (proj2 (proj2 (proj2 (proj2 (proj2
+    (upload_success_means_no_fault result rec parse_file coalesce rejects alloc alloc_fresh _ _ _ _ _ _ H))))))) n Hn).
+Qed.
+
 End C20.
 
 Print Assumptions C20_upload_all_or_nothing.
@@ -159,6 +182,8 @@ Print Assumptions C20_history_preserves_earlier.
 Print Assumptions C20_ids_never_reused_upload.
 Print Assumptions C20_listing_hides_recordless_uploads.
 Print Assumptions C20_failed_upload_not_listed.
+Print Assumptions C20_success_ops_are_spec_ops.
+Print Assumptions C20_fs_fault_below_spec_ops_fails.
 
 (** recorded finding (code as it is): the clause "a request body cut off at any
     point leaves no record" fails when the cleanly framed body stops inside the
